@@ -124,6 +124,9 @@ func (lv *c02Live) doer(client *http.Client) c02Doer {
 			return out, nil
 		}
 		req.Header.Set(c02RunHeader, run.id)
+		for _, h := range run.reqHdr {
+			req.Header.Set(h[0], h[1])
+		}
 		if opt.upgrade != "" {
 			req.Header.Set("Upgrade", opt.upgrade)
 		}
